@@ -9,6 +9,13 @@ CHECKS = {
         "subset of a 3-charge set, every direction pattern and total charge has gen_valid_sectors / is_valid_sector / from_fill_fn compared with a brute-force filter. "
         "The quantifier of the property is finite and is covered completely, which is why exhaustive enumeration is the right level.",
    note="Trusted: mc/groups.py as specification of the groups; python int semantics. Bounded to the stated boxes and index counts."),
+ "C02": dict(engine="E-enum", design_ref="DESIGN.md 5 C02",
+   technique="exhaustive enumeration of contractible pairs x axes x modes on the real code; reference = numpy contraction of the harness's own dense embedding, exact integer tags",
+   text="Every pair (a, b, axes) of the bounded universe (<=3 indices per operand, <=3 charges per index, all directions, total charges, independent sparsity "
+        "patterns and block orders, every axis placement and listing order) is contracted by the real tensordot in modes fused / blockwise / auto, through autoray, @, "
+        "negative and integer axes, the default-mode context manager and preserve_array, plus trace and every one-/two-pair single-array einsum; the result embedded "
+        "into the tables of the uncontracted operand indices must equal numpy.tensordot of the embedded operands exactly, with the combined charge and the free legs' directions.",
+   note="Trusted: numpy on small dense arrays; the harness embedding (mc/arrays.py embed); integer tags make equality exact. Bounded to PLANS in mc/checks/c02.py."),
 }
 
 _ALL = ["C%02d" % i for i in range(1, 21)]
